@@ -28,6 +28,7 @@ fn main() {
         (Some("record"), Some("cli")) => cli_rec::record(&args),
         (Some("record"), Some("table")) => tables::record_table(&args),
         (Some("replay"), Some("bddvec")) => vec_replay::replay_bddvec(&args),
+        (Some("replay"), Some("itevec")) => vec_replay::replay_itevec(&args),
         (Some("replay"), Some("sddvec")) => vec_replay::replay_sddvec(&args),
         (Some("replay"), Some("table")) => tables::replay_table(&args),
         (Some("record"), Some("lru")) => tables::record_lru(&args),
